@@ -2,6 +2,7 @@ package guards
 
 import (
 	"fmt"
+	"go/constant"
 	"go/types"
 
 	"golang.org/x/tools/go/ssa"
@@ -49,7 +50,27 @@ func (p *ParamLin) equal(o *ParamLin) bool {
 
 type Summary struct {
 	Res    []ResSummary
-	ErrIdx int // index of the error result, -1 if none
+	ErrIdx int  // index of the success indicator: the error result, or (comma-ok idiom) a trailing bool when there is no error result; -1 if none
+	OkBool bool // the indicator is a bool that is true on success
+}
+
+// succIndex: the error result, else a trailing bool result of a multi-result function (`v, ok := f()`).
+func succIndex(sig *types.Signature) (int, bool) {
+	if i := errIndex(sig); i >= 0 {
+		return i, false
+	}
+	r := sig.Results()
+	if n := r.Len(); n >= 2 {
+		if b, ok := r.At(n - 1).Type().Underlying().(*types.Basic); ok && b.Kind() == types.Bool {
+			return n - 1, true
+		}
+	}
+	return -1, false
+}
+
+func isTrueConst(v ssa.Value) bool {
+	k, ok := v.(*ssa.Const)
+	return ok && k.Value != nil && k.Value.Kind() == constant.Bool && constant.BoolVal(k.Value)
 }
 
 func errIndex(sig *types.Signature) int {
@@ -133,7 +154,8 @@ func (e *Engine) Summarize(f *ssa.Function) *Summary {
 		return nil
 	}
 	nres := f.Signature.Results().Len()
-	s := &Summary{Res: make([]ResSummary, nres), ErrIdx: errIndex(f.Signature)}
+	s := &Summary{Res: make([]ResSummary, nres)}
+	s.ErrIdx, s.OkBool = succIndex(f.Signature)
 	type ret struct {
 		b   *ssa.BasicBlock
 		r   *ssa.Return
@@ -142,7 +164,7 @@ func (e *Engine) Summarize(f *ssa.Function) *Summary {
 	var rets []ret
 	for _, b := range f.Blocks {
 		if r, ok := b.Instrs[len(b.Instrs)-1].(*ssa.Return); ok && a.in[b] != nil {
-			okp := s.ErrIdx >= 0 && isNilConst(a.cv(r.Results[s.ErrIdx]))
+			okp := s.ErrIdx >= 0 && ((!s.OkBool && isNilConst(a.cv(r.Results[s.ErrIdx]))) || (s.OkBool && isTrueConst(a.cv(r.Results[s.ErrIdx]))))
 			rets = append(rets, ret{b, r, okp})
 		}
 	}
